@@ -424,7 +424,9 @@ def cases(tier):
     out.append((("T5",), {}, "tokenized"))
     # cyclic entity tables: expansion must be refused, not recurse without bound
     for cyc in ({"1": ["E2"], "2": ["E1"]}, {"1": ["E1"]}, {"1": ["E2", "E1"], "2": ["T1"]}, {"1": ["T1", "E2"], "2": ["E3", "E1"], "3": ["T1"]},
-                {"1": ["E2", "E3"], "2": ["T1"], "3": ["E2", "E1"]}):
+                {"1": ["E2", "E3"], "2": ["T1"], "3": ["E2", "E1"]},
+                # cycles that do not pass through the entity the attribute refers to (a "lasso": 1 -> 2 -> 3 -> 2, 1 -> 2 -> 2)
+                {"1": ["E2"], "2": ["T1", "E3"], "3": ["E2"]}, {"1": ["T1", "E2"], "2": ["E2"]}):
         out.append((("E1",), cyc, "none"))
     return out
 
